@@ -224,7 +224,10 @@ func (c *Cluster) opSubmit(s *Step) {
 	}
 	tx := make([]byte, len(s.Tx))
 	copy(tx, s.Tx)
-	if s.Tx == nil {
+	switch s.N {
+	case 1:
+		tx = []byte{}
+	case 2:
 		tx = nil
 	}
 	a.node.SimAddTransaction(tx)
